@@ -9,13 +9,13 @@ sys.path.insert(0, ROOT)
 from vf.gen import trivia as T
 
 RULES = {
-    "C01": [(r"attrpath/.*", "F02"), (r"source_code:[^/]*/\^/.*", "F01"), (r"source_code:let_expression/.*", "F26"), (r".*", "F27")],
+    "C01": [(r"attrpath/.*", "F02"), (r"source_code:[^/]*/\^/.*", "F01"), (r"source_code:let_expression/.*", "F26"), (r".*", "NEW")],
     "C03": [(r"attrpath/.*", "F02"), (r"select_expression/.*", "F14"), (r"let_expression/let/in", "F15"), (r"function_expression/.*@.*", "F16"),
             (r"(source_code:assert_expression|parenthesized_expression:assert_expression|assert_expression)/.*", "F17"),
             (r"(inherit|inherit_from|inherited_attrs)/.*", "F18"), (r"source_code:[^/]*/\^/.*", "F01"), (r".*", "F20")],
     "C06": [(r"attrpath/.*", "F02"), (r"source_code:[^/]*/\^/.*", "F01"), (r"let_expression/in/.*", "GEN:F15"),
             (r"(source_code|parenthesized_expression):let_expression/.*", "F26"), (r"select_expression/.*", "F14"),
-            (r"(source_code|parenthesized_expression):assert_expression/.*", "F17"), (r".*", "F21")],
+            (r"(source_code|parenthesized_expression):assert_expression/.*", "F17"), (r".*", "NEW")],
     "C18": [(r"source_code:[^/]*/\^/.*", "F01"), (r"let_expression/in/.*", "GEN:F15"), (r"(inherit|inherit_from|inherited_attrs)/.*", "F18"),
             (r"(source_code|parenthesized_expression):let_expression/.*", "F26"), (r".*", "F22")],
 }
